@@ -584,7 +584,9 @@ def check_C03(chk, tier, seed):
             ok = False
             chk.violation("a well-formed frame with known command, application and AVPs was rejected (padding octets / reserved bits must not matter)",
                           dict(case=c, kind=kind, impl=short(im)))
-        if ok and im != mobs:
+        # octet strings shorter or longer than their own declared message length are outside this property's quantifier
+        # (whether such input is refused or read as far as it goes is left open): judged for crashes only, not compared
+        if ok and comp and im != mobs:
             chk.corr_break("decoder observation differs from the model", dict(case=c, kind=kind, impl=short(im, 3000), model=short(mobs, 3000)))
         if i % max(1, len(fam) // 6) == 0:
             chk.sample(dict(case=c, kind=kind, impl=short(im, 120), P=ok))
@@ -608,8 +610,8 @@ def check_C04(chk, tier, seed):
     elif lim is None:
         chk.violation("no nesting limit: the decoder recursed through every depth tried (up to 131000 levels in a 1 MiB frame)",
                       dict(case="nested groups", impl="accepted all depths"))
-    nh = 300 if tier == "quick" else 1500
-    frames = corpus_frames(rng, eng, nh)[: (120 if tier == "quick" else 500)]     # thorough: every length rewrite, truncation and single-bit flip of each
+    nh = 300 if tier == "quick" else 3000
+    frames = corpus_frames(rng, eng, nh)[: (120 if tier == "quick" else 1500)]     # thorough: every length rewrite, truncation and single-bit flip of each
     fam = frame_families(rng, eng, frames, 25 if tier == "quick" else 80, thorough=(tier == "thorough"))
     fam += [("regress", c.split()[1], bytes.fromhex(c.split()[2][1:]), False) for c in regress_cases("C04") if c.startswith("X ")]
     fam += [("display-stress", did, f, True) for did, f in display_stress_frames(eng)]
@@ -660,7 +662,7 @@ def check_C04(chk, tier, seed):
             mobs, _ = split_obs(model[i])
             if mobs.startswith("PANIC") or mobs.startswith("OUTOFFUEL"):
                 chk.corr_break("model outcome " + mobs[:12] + " (contradicts theorem C04_never_panics: the runner is broken)", dict(case=c))
-            elif im != mobs:
+            elif im != mobs and is_complete(f):      # incomplete / over-long input: Ok-or-Err is all this property asks
                 known = False
                 if im.startswith("OK "):
                     try:
